@@ -66,7 +66,78 @@ def run_sched(ctx, binp, L, prog, poll, args, timeout=1500):
     return parse(r.stdout), st
 
 
+XSRC = ["sched_xfer.c", "vsched.c", "vloop.c", "lib/upipe/upump_common.c", "lib/upipe/uprobe.c",
+        "lib/upipe/uprobe_transfer.c", "lib/upipe-modules/upipe_transfer.c"]
+# (queue length, application program, W releases its manager reference: 0 at once / 9 never, pb quick, pb thorough)
+XDFS = [(4, "aurm", 0, 2, 3), (4, "auurm", 0, 1, 2), (2, "auour", 9, 2, 3), (1, "auurm", 0, 1, 2), (4, "amur", 0, 1, 2)]
+
+
+def run_xfer(ctx):
+    """Transferred pipes (upipe_xfer): Xfer.tla + Xfer_Trace.tla + sched_xfer."""
+    binx = ctx.cc("sched_xfer", XSRC, flags=["-Wl,--wrap=free"])
+    for c in ("order_full", "order_two", "order_nomgrrel", "life_handshake"):
+        res = ctx.tlc("MCXfer", "MCXfer_%s.cfg" % c, workers=1)
+        ctx.model_must_hold(res, "Xfer/" + c)
+    verdicts = {}
+    for c in ("life_code", "life_wlast"):
+        res = ctx.tlc("MCXfer", "MCXfer_%s.cfg" % c, workers=1)
+        verdicts[c] = res.violated
+    ctx.extra["xfer_model_lifetime_verdicts"] = verdicts
+    pool = []
+    runs = 0
+    for qlen, prog, wrel, pbq, pbt in XDFS:
+        pb = pbq if ctx.quick else pbt
+        for args in (["dfs", pb, 30000 if ctx.quick else 2000000], ["random", 500 if ctx.quick else 50000, ctx.seed, 5]):
+            r = ctx.run([binx, str(qlen), prog, str(wrel)] + [str(a) for a in args], timeout=1500)
+            if r.returncode != 0:
+                raise vlib.ToolError("sched_xfer rc=%d %s" % (r.returncode, r.stderr[-1500:]))
+            st = {}
+            for l in r.stderr.splitlines():
+                if l.startswith("{"):
+                    st.update(json.loads(l))
+            runs += st.get("runs", 0)
+            hs = parse(r.stdout)
+            pool += [(h, "%s pb=%s" % (args[0], pb)) for h in hs]
+            if args[0] == "dfs":
+                ctx.extra.setdefault("xfer_dfs", []).append({"qlen": qlen, "prog": prog, "wrel": wrel, "preemption_bound": pb,
+                                                             "schedules": st.get("runs"), "distinct_traces": st.get("unique"),
+                                                             "complete_within_bound": st.get("complete")})
+                if hs:
+                    ctx.sample({"xfer": {"prog": prog}, "trace": hs[0][1:16]}, limit=3)
+    ctx.evaluations += runs
+    ctx.extra["xfer_schedules_run_on_real_code"] = runs
+    rej = ctx.validate_histories_1pass("Xfer_Trace", "Xfer_Trace.cfg", [h for h, _ in pool], tag="xf")
+    seen = set()
+    for idx, line, inv in rej:
+        h, source = pool[idx]
+        r0 = h[0]
+        ev = h[line - 1] if 0 < line <= len(h) else {}
+        sig = {"Touch": "manager-freed-during-push", "Exec": "command-order-or-thread", "Forward": "event-thread-or-invented",
+               "Quiescent": "command-or-event-lost"}.get(ev.get("e"), ev.get("e", "?"))
+        if ev.get("e") == "Touch":
+            last_cmd = [e for e in h[:line] if e["e"] in ("MgrRelease", "HandleDead")]
+            key = "xfer_mgr;detach;manager-freed-during-push"
+        else:
+            key = "xfer;%s" % sig
+        if key in seen:
+            continue
+        seen.add(key)
+        r = ctx.run([binx, str(r0["qlen"]), r0["prog"], str(r0["wrel"]), "replay", r0["sched"]], timeout=300)
+        hs2 = parse(r.stdout)
+        rej2 = ctx.validate_histories_1pass("Xfer_Trace", "Xfer_Trace.cfg", hs2, tag="xfre") if hs2 else []
+        if not rej2:
+            raise vlib.ToolError("rejected xfer trace did not reproduce: %s" % r0)
+        ctx.violation(key, "trace of the real upipe_xfer (program %s) rejected at event %d %s: %s"
+                      % (r0["prog"], line, json.dumps(ev), sig),
+                      {"cmd": "sched_xfer %d %s %d replay %s" % (r0["qlen"], r0["prog"], r0["wrel"], r0["sched"]), "trace": h, "source": source})
+
+
 def run(ctx):
+    run_queue(ctx)
+    run_xfer(ctx)
+
+
+def run_queue(ctx):
     binp = ctx.cc("sched_queue", SRC)
     ctx.assumptions += ["one queue sink per queue (per-sink order is what the statement requires)",
                         "event loops are the mock vloop over the real upump_common.c; descriptor readiness from poll()",
